@@ -38,6 +38,8 @@ ARITH = 'machine arithmetic treated as mathematical: floats are extended reals (
 
 SPECS = []          # Spec objects, in report order
 ALL_KEYS = set()    # keys of the findings the specifications know about
+LIVE = set()        # keys of the recorded findings whose witness reproduces on the current code (set by main before the proofs start)
+A_, B_ = z3.Int('c18!a'), z3.Int('c18!b')
 NATIVE_FN = {}      # spec name -> name of the native runner in replay/c18_replay.py (falsification of unproved clauses)
 
 
@@ -110,7 +112,7 @@ class Script:
 
     def hyp(self, key, formula):
         """hypothesis that restricts a tagged step to the outside of finding `key`'s witness class (residual run only)"""
-        return z3.BoolVal(True) if self.strong else formula
+        return z3.BoolVal(True) if (self.strong or key not in LIVE) else formula
 
     # -- solver calls
     def _iso(self, f, hyps, timeout_ms):
@@ -150,6 +152,8 @@ class Script:
         t0 = time.time()
         tmo = timeout_ms or self.budget_ms
         known = tuple(known) if isinstance(known, (tuple, list, set, frozenset)) else ((known,) if known else ())
+        if known and self.strong:
+            tmo = min(tmo, 3000)       # the strong form of a clause tagged with a finding: a short attempt (it proves quickly once the defect is fixed)
         if not self.strong:
             if name in self.lem:
                 return True
@@ -163,11 +167,8 @@ class Script:
         if isinstance(f, bool):
             v = 'unsat' if f else 'false'
         else:
-            missing = [u for u in uses if u not in self.lem]
-            hs = self.hyps(uses)
-            if missing and mode == 'iso':
-                v = 'unknown'
-            elif mode == 'iso':
+            hs = self.hyps(uses)          # lemmas that are not available on this path (not proved / not attempted) are simply not used
+            if mode == 'iso':
                 v = self._iso(f, hs, tmo)
                 if v != 'unsat':
                     v2 = self._ctx(f, hs + W.ground_math(hs + [f]), tmo)
@@ -209,19 +210,25 @@ class Spec:
     """one function under contract.  name: obligation prefix (C18.<name>.<clause>); quals: the real functions executed;
     native: runner of replay/c18_replay.py that evaluates the clauses of this spec on the real code"""
 
-    def __init__(self, name, quals, entry, steps, skip_strong=None, loops=(), native=None, min_claims=1):
-        self.name, self.quals, self.entry, self.steps = name, quals, entry, steps
+    def __init__(self, name, quals, entry, steps, skip_strong=None, loops=(), native=None, min_claims=1, models=None):
+        self.name, self.quals, self.entry, self.steps, self.models = name, quals, entry, steps, dict(models or {})
         self.skip_strong = skip_strong or (lambda path: set())
         self.loops, self.native, self.min_claims = loops, native, min_claims
         SPECS.append(self)
 
 
-def run_spec(spec, tier, live=()):
+def run_spec(spec, tier, live=(), shard=(0, 1)):
     """explore + prove; returns plain data.  live: keys of the recorded findings whose witness reproduces on the current code"""
     t0 = time.time()
     for key, ls in spec.loops:
         E.LOOPS[key] = ls
-    paths = E.explore(spec.entry, max_paths=400, timeout_ms=1500, deadline_s=240)
+    saved = dict(E.MODELS)
+    E.MODELS.update(spec.models)
+    try:
+        paths = E.explore(spec.entry, max_paths=400, timeout_ms=1500, deadline_s=240)
+    finally:
+        E.MODELS.clear()
+        E.MODELS.update(saved)
     res = {'name': spec.name, 'quals': list(spec.quals), 'paths': [(p.kind, p.describe()) for p in paths], 'inst': [], 'assumed': set(), 'lib': set(),
            'inlined': set(), 'unsupported': sorted({p.value for p in paths if p.kind == 'unsupported'})}
     budget = 8000 if tier == 'quick' else 30000
@@ -229,7 +236,7 @@ def run_spec(spec, tier, live=()):
         res['assumed'] |= p.run.assumed
         res['lib'] |= p.run.__dict__.get('lib_used', set())
         res['inlined'] |= p.run.inlined
-        if p.kind == 'unsupported':
+        if p.kind == 'unsupported' or pi % shard[1] != shard[0]:
             continue
         sc = Script(p, spec.name, True, budget, skip=set(spec.skip_strong(p)) & set(live), pi=pi)
         sc.engine_obligations()
@@ -246,7 +253,7 @@ def run_spec(spec, tier, live=()):
 
 
 # ------------------------------------------------------------------------------------------ common pieces of the specifications
-def fresh_labels(it, name='y', lo=0):
+def fresh_labels(it, name='y', lo=1):
     """an arbitrary (n, 1) float label array (any mix of finite values, NaN, +-inf)"""
     run = it.run
     n = run.fresh('n', z3.IntSort())
@@ -285,7 +292,7 @@ def has_pinf(c):
 
 def raise_steps(sc, p, allowed_when=None, known=None):
     """clause `raises_only_documented`: the only exception is the documented ValueError for a +inf label (or, for `allowed_when`,
-    another documented ValueError); anything else must be unreachable"""
+    another documented ValueError); anything else must be unreachable.  known = (finding key, class formula fn, exception names)"""
     c = p.run.c18
     if exc_name(p) == 'ValueError':
         msg = str((p.value.attrs.get('args') or ('',))[0])
@@ -295,9 +302,10 @@ def raise_steps(sc, p, allowed_when=None, known=None):
             f = allowed_when(msg)
             if f is not None:
                 return sc.step('raises_only_documented', f, claim=True)
-    cls = known[1](p) if known else None
-    f = z3.BoolVal(False) if (sc.strong or cls is None) else cls
-    return sc.step('raises_only_documented', f, claim=True, known=known[0] if known else None)
+    if known is not None and exc_name(p) in known[2]:
+        f = z3.BoolVal(False) if sc.strong else known[1](p)
+        return sc.step('raises_only_documented', f, claim=True, known=known[0])
+    return sc.step('raises_only_documented', z3.BoolVal(False), claim=True)
 
 
 def make(it, clsname, **attrs):
@@ -339,6 +347,39 @@ def validate_badshape_steps(sc, p):
     sc.step('rank1_rejected', p.kind == 'raise' and exc_name(p) == 'ValueError' and not_modified(p.run.c18), claim=True)
 
 
+# =========================================================================================== component contracts (clauses shared with the pipeline composition)
+def C_infeasible(y, o, n):
+    fin2 = z3.And(rng(n, I_, J_), X.is_fin(y(I_)), X.is_fin(y(J_)))
+    return {
+        'all_outputs_finite': z3.Implies(rng(n, I_), X.is_fin(o(I_))),
+        'infeasible_strictly_below_feasible': z3.Implies(z3.And(rng(n, I_, J_), X.is_nan(y(I_)), X.is_fin(y(J_))), X.lt(o(I_), o(J_))),
+        'order_and_ties_of_feasible_preserved': z3.Implies(fin2, z3.And(X.lt(y(I_), y(J_)) == X.lt(o(I_), o(J_)), (y(I_) == y(J_)) == (o(I_) == o(J_)))),
+        'infeasible_entries_tie': z3.Implies(z3.And(rng(n, I_, J_), X.is_nan(y(I_)), X.is_nan(y(J_))), o(I_) == o(J_)),
+    }
+
+
+def C_log(y, o, n, g_off, g_good):
+    fin2 = z3.And(rng(n, I_, J_), X.is_fin(y(I_)), X.is_fin(y(J_)))
+    return {
+        'nan_untouched': z3.Implies(z3.And(rng(n, I_), X.is_nan(y(I_))), X.is_nan(o(I_))),
+        'strictly_increasing_on_finite': z3.Implies(z3.And(fin2, g_off, X.lt(y(I_), y(J_))), X.lt(o(I_), o(J_))),
+        'ties_preserved': z3.Implies(z3.And(fin2, y(I_) == y(J_)), o(I_) == o(J_)),
+        'finite_to_finite': z3.Implies(z3.And(rng(n, I_), g_good, X.is_fin(y(I_))), X.is_fin(o(I_))),
+        'output_finite_or_nan': z3.Implies(rng(n, I_), z3.Or(X.is_fin(o(I_)), X.is_nan(o(I_)))),
+    }
+
+
+def C_halfrank(y, o, n, G):
+    fin2 = z3.And(rng(n, I_, J_), X.is_fin(y(I_)), X.is_fin(y(J_)))
+    return {
+        'nan_untouched': z3.Implies(z3.And(rng(n, I_), X.is_nan(y(I_))), X.is_nan(o(I_))),
+        'finite_to_finite': z3.Implies(z3.And(rng(n, I_), G, X.is_fin(y(I_))), X.is_fin(o(I_))),
+        'order_of_finite_preserved': z3.Implies(z3.And(rng(n, I_, J_), G, fin2, X.lt(y(I_), y(J_))), X.lt(o(I_), o(J_))),
+        'ties_preserved': z3.Implies(z3.And(fin2, y(I_) == y(J_)), o(I_) == o(J_)),
+        'output_finite_or_nan': z3.Implies(rng(n, I_), z3.Or(X.is_fin(o(I_)), X.is_nan(o(I_)))),
+    }
+
+
 # =========================================================================================== InfeasibleWarperComponent
 def infeasible_entry(roundtrip):
     def entry(it):
@@ -363,14 +404,14 @@ def infeasible_steps(sc, p):
     o = lambda t: out.at(t, 0)
     sc.step('input_not_modified', isinstance(out, NDArray) and out is not c['inp'] and not_modified(c), claim=True)
     sc.step('shape_preserved', shape_is(out, n), claim=True)
-    sc.step('all_outputs_finite', z3.Implies(rng(n, I_), X.is_fin(o(I_))), claim=True)
-    sc.step('infeasible_strictly_below_feasible', z3.Implies(z3.And(rng(n, I_, J_), X.is_nan(y(I_)), X.is_fin(y(J_))), X.lt(o(I_), o(J_))), claim=True)
+    C = C_infeasible(y, o, n)
+    sc.step('all_outputs_finite', C['all_outputs_finite'], claim=True)
+    sc.step('infeasible_strictly_below_feasible', C['infeasible_strictly_below_feasible'], claim=True)
     sc.step('feasible_shifted_by_common_constant',
             z3.Implies(z3.And(rng(n, I_, J_), X.is_fin(y(I_)), X.is_fin(y(J_))), X.r(o(I_)) - X.r(y(I_)) == X.r(o(J_)) - X.r(y(J_))), claim=True)
-    sc.step('order_and_ties_of_feasible_preserved',
-            z3.Implies(z3.And(rng(n, I_, J_), X.is_fin(y(I_)), X.is_fin(y(J_))), z3.And(X.lt(y(I_), y(J_)) == X.lt(o(I_), o(J_)), (y(I_) == y(J_)) == (o(I_) == o(J_)))),
+    sc.step('order_and_ties_of_feasible_preserved', C['order_and_ties_of_feasible_preserved'],
             mode='iso', uses=['feasible_shifted_by_common_constant', 'all_outputs_finite'], claim=True)
-    sc.step('infeasible_entries_tie', z3.Implies(z3.And(rng(n, I_, J_), X.is_nan(y(I_)), X.is_nan(y(J_))), o(I_) == o(J_)), claim=True)
+    sc.step('infeasible_entries_tie', C['infeasible_entries_tie'], claim=True)
 
 
 def infeasible_roundtrip_steps(sc, p):
@@ -434,13 +475,18 @@ def log_steps(sc, p):
     fin2 = z3.And(rng(n, I_, J_), X.is_fin(y(I_)), X.is_fin(y(J_)))
     sc.step('input_not_modified', isinstance(out, NDArray) and out is not c['inp'] and not_modified(c), claim=True)
     sc.step('shape_preserved', shape_is(out, n), claim=True)
-    sc.step('nan_untouched', z3.Implies(z3.And(rng(n, I_), X.is_nan(y(I_))), X.is_nan(o(I_))), claim=True)
+    g_off = sc.hyp(K_LOG_OFFSET1, c['off'] != 1)
+    C = C_log(y, o, n, g_off, log_good(sc, c, y))
+    sc.step('nan_untouched', C['nan_untouched'], claim=True)
     sc.step('min_max_recorded', z3.Implies(z3.And(rng(n, I_), X.is_fin(y(I_))), z3.And(X.le(mn, y(I_)), X.le(y(I_), mx))))
     # strictly increasing needs offset != 1 only (two distinct finite labels imply max > min); finiteness needs both
-    g_off = sc.hyp(K_LOG_OFFSET1, c['off'] != 1)
-    sc.step('strictly_increasing_on_finite', z3.Implies(z3.And(fin2, g_off, X.lt(y(I_), y(J_))), X.lt(o(I_), o(J_))), claim=True, known=K_LOG_OFFSET1)
-    sc.step('ties_preserved', z3.Implies(z3.And(fin2, y(I_) == y(J_)), o(I_) == o(J_)), claim=True)
-    sc.step('finite_to_finite', z3.Implies(z3.And(rng(n, I_), log_good(sc, c, y), X.is_fin(y(I_))), X.is_fin(o(I_))), claim=True, known=(K_LOG_CONST, K_LOG_OFFSET1))
+    sc.step('strictly_increasing_on_finite', C['strictly_increasing_on_finite'], claim=True, known=K_LOG_OFFSET1)
+    sc.step('ties_preserved', C['ties_preserved'], claim=True)
+    sc.step('finite_to_finite', C['finite_to_finite'], claim=True, known=(K_LOG_CONST, K_LOG_OFFSET1))
+    sc.step('output_finite_or_nan', C['output_finite_or_nan'], claim=True)
+    two = z3.And(rng(n, A_, B_), X.is_fin(y(A_)), X.is_fin(y(B_)), y(A_) != y(B_))
+    C2 = C_log(y, o, n, g_off, z3.And(g_off, two))
+    sc.step('finite_to_finite_given_two_distinct_labels', C2['finite_to_finite'], claim=True, known=K_LOG_OFFSET1, uses=['min_max_recorded'])
 
 
 def log_skip(p):
@@ -569,7 +615,7 @@ def halfrank_steps(sc, p):
     n, f0 = c['n'], c['f0']
     y = validated(f0)
     if p.kind == 'raise':
-        return raise_steps(sc, p, known=(K_HR_ALLNAN, lambda p_: no_finite(c)))
+        return raise_steps(sc, p, known=(K_HR_ALLNAN, lambda p_: no_finite(c), ('IndexError',)))
     out = p.value
     o = lambda t: out.at(t, 0)
     sc.step('input_not_modified', isinstance(out, NDArray) and out is not c['inp'] and not_modified(c), claim=True)
@@ -579,14 +625,14 @@ def halfrank_steps(sc, p):
     nonan = QA(n, lambda t: X.is_fin(f0(t, 0)))
     G = sc.hyp(K_HR_NAN, nonan)
     fin2 = z3.And(rng(n, I_, J_), X.is_fin(y(I_)), X.is_fin(y(J_)))
+    C = C_halfrank(y, o, n, G)
     if L is None:
         # size-1 shortcut (or no loop): the validated copy is returned as it is
         sc.step('identity_without_loop', z3.Implies(rng(n, I_), o(I_) == y(I_)))
-        for nm in ('top_half_unchanged', 'finite_to_finite'):
-            sc.step(nm, z3.Implies(z3.And(rng(n, I_), X.is_fin(y(I_))), o(I_) == y(I_)), claim=True, mode='iso', uses=['identity_without_loop'])
+        sc.step('top_half_unchanged', z3.Implies(z3.And(rng(n, I_), X.is_fin(y(I_))), o(I_) == y(I_)), claim=True, mode='iso', uses=['identity_without_loop'])
         sc.step('below_median_mapped_strictly_below', True, claim=True)
-        sc.step('order_of_finite_preserved', z3.Implies(z3.And(fin2, X.lt(y(I_), y(J_))), X.lt(o(I_), o(J_))), claim=True, mode='iso', uses=['identity_without_loop'])
-        sc.step('ties_preserved', z3.Implies(z3.And(fin2, y(I_) == y(J_)), o(I_) == o(J_)), claim=True, mode='iso', uses=['identity_without_loop'])
+        for nm in ('finite_to_finite', 'order_of_finite_preserved', 'ties_preserved', 'output_finite_or_nan'):
+            sc.step(nm, C[nm], claim=True, uses=['identity_without_loop'])
         return
     med, den, std, ranks, u, s = L['median'], L['den'], L['std'], L['ranks'], L['u'], L['s']
     root, vs, uf, wit = u.unique_of
@@ -621,13 +667,17 @@ def halfrank_steps(sc, p):
     # -- the clauses
     sc.step('below_median_mapped_strictly_below', z3.Implies(z3.And(H1, below(I_)), z3.And(X.is_fin(o(I_)), X.lt(o(I_), med))), claim=True, mode='iso',
             uses=arith, known=K_HR_NAN)
-    sc.step('finite_to_finite', z3.Implies(z3.And(H1, X.is_fin(y(I_))), X.is_fin(o(I_))), claim=True, mode='iso',
-            uses=arith + ['below_median_mapped_strictly_below'], known=K_HR_NAN)
+    sc.step('finite_to_finite', C['finite_to_finite'], claim=True, mode='iso', uses=arith + ['below_median_mapped_strictly_below'], known=K_HR_NAN)
     sc.step('order_below_median', z3.Implies(z3.And(H2, below(I_), below(J_), X.lt(y(I_), y(J_))), X.lt(o(I_), o(J_))), mode='iso', uses=arith, known=K_HR_NAN)
-    sc.step('order_of_finite_preserved', z3.Implies(z3.And(H2, fin2, X.lt(y(I_), y(J_))), X.lt(o(I_), o(J_))), claim=True, mode='iso',
+    sc.step('order_of_finite_preserved', C['order_of_finite_preserved'], claim=True, mode='iso',
             uses=arith + ['below_median_mapped_strictly_below', 'order_below_median'], known=K_HR_NAN)
-    sc.step('ties_preserved', z3.Implies(z3.And(fin2, y(I_) == y(J_)), o(I_) == o(J_)), claim=True, mode='iso',
-            uses=['loop_exit_unchanged', 'loop_exit_value', 'count_equal', 'rank_equal'])
+    sc.step('ties_preserved', C['ties_preserved'], claim=True, mode='iso', uses=['loop_exit_unchanged', 'loop_exit_value', 'count_equal', 'rank_equal'])
+    # a written value is ppf(..) * std + median: never +-inf (NaN ranks give NaN)
+    sc.step('rank_nan_or_dense', z3.Implies(z3.And(rng(n, I_), X.is_fin(y(I_))), z3.Or(X.is_nan(ranks.at(I_)), ranks.at(I_) == X.fin(z3.ToReal(c_(I_) + 1)))))
+    sc.step('quantile_never_zero_or_one', z3.Implies(z3.And(rng(n, I_), below(I_)), z3.Or(X.is_nan(q(I_)), z3.And(X.is_fin(q(I_)), X.r(q(I_)) > 0, X.r(q(I_)) < z3.Q(1, 2)))),
+            mode='iso', uses=['rank_nan_or_dense', 'rank_at_most_median_index', 'denominator_value', 'count_range', 'median_finite'])
+    sc.step('output_finite_or_nan', C['output_finite_or_nan'], claim=True, mode='iso',
+            uses=['quantile_never_zero_or_one', 'loop_exit_unchanged', 'loop_exit_value', 'std_positive', 'median_finite'])
     # -- the state saved for unwarp
     uw = c['obj'].attrs.get('_unwarper')
     ok = isinstance(uw, Obj) and all(isinstance(uw.attrs.get(k), NDArray) for k in ('_original_labels', '_warped_labels'))
@@ -748,3 +798,628 @@ def unwarper_skip(p):
 
 Spec('_HalfRankUnwarper.unwarp', ['_HalfRankUnwarper.unwarp'], unwarper_entry(True), unwarper_steps(True), skip_strong=unwarper_skip, native='unwarper')
 Spec('_HalfRankUnwarper.unwarp[any label]', ['_HalfRankUnwarper.unwarp'], unwarper_entry(False), unwarper_steps(False), native='unwarper_any')
+
+
+# =========================================================================================== HalfRankComponent.unwarp
+UNW = z3.Function('UNWARP1', X.XReal, X.XReal)        # the (pure) map computed by _HalfRankUnwarper.unwarp for the saved tables
+HRU_LOOP = (OW, 'HalfRankComponent.unwarp', 1)
+
+
+def spy_unwarper(it):
+    def unwarp(it_, args, kw):
+        it_.run.c18.setdefault('unw_calls', 0)
+        it_.run.c18['unw_calls'] += 1
+        return UNW(X.lift(args[0]))
+    return Obj('SpyUnwarper', {'unwarp': Builtin('unwarp', unwarp)})
+
+
+def hr_unwarp_inv(it, fr, ctx):
+    arrs = [k for k, v in ctx.entry_env.items() if isinstance(v, NDArray) and v.rank == 1 and v.dtype == 'float']
+    if len(arrs) != 1:
+        raise Unsupported('loop contract of HalfRankComponent.unwarp: expected exactly one flat float array among the locals')
+    cur, ent = fr.env[arrs[0]], ctx.entry_vals[arrs[0]]
+    it.run.c18['loop'] = {'ent': ent}
+    if ctx.phase == 'head':
+        it.run.c18['ax0'] = len(it.run.axioms)
+    i = ctx.i
+    return [('pointwise_map', QA(cur.shape[0], lambda j: cur.at(j) == z3.If(j < i, UNW(ent.at(j)), ent.at(j))))]
+
+
+def hr_unwarp_entry(warped_first):
+    def entry(it):
+        inp = fresh_labels(it)
+        obj = make(it, 'HalfRankComponent', _unwarper=spy_unwarper(it) if warped_first else None)
+        return call(it, obj, 'unwarp', inp)
+    return entry
+
+
+def hr_unwarp_steps(sc, p):
+    c = p.run.c18
+    n, f0 = c['n'], c['f0']
+    y = validated(f0)
+    if p.kind == 'raise':
+        def ok(msg):
+            if 'nan' in msg.lower():
+                return QE(n, lambda t: X.is_nan(y(t)))
+            return None
+        return raise_steps(sc, p, allowed_when=ok)
+    out = p.value
+    sc.step('input_not_modified', isinstance(out, NDArray) and out is not c['inp'] and not_modified(c), claim=True)
+    sc.step('shape_preserved', shape_is(out, n), claim=True)
+    sc.step('nan_rejected', z3.Implies(rng(n, I_), z3.Not(X.is_nan(y(I_)))), claim=True)
+    sc.step('applies_unwarper_to_every_entry', z3.Implies(rng(n, I_), out.at(I_, 0) == UNW(y(I_))), claim=True, mode='tail')
+
+
+Spec('HalfRankComponent.unwarp', ['HalfRankComponent.unwarp', '_validate_labels'], hr_unwarp_entry(True), hr_unwarp_steps,
+     loops=[(HRU_LOOP, E.LoopSpec(hr_unwarp_inv))], native='halfrank_unwarp')
+Spec('HalfRankComponent.unwarp[first]', ['HalfRankComponent.unwarp'], hr_unwarp_entry(False), unwarp_first_steps, native='halfrank_unwarp_first')
+
+
+# =========================================================================================== OutputWarperPipeline.warp / unwarp
+def spy_warper(tag):
+    def mk(kind):
+        def fn(it_, args, kw):
+            run = it_.run
+            a = args[0]
+            n = run.c18['n']
+            res = NP.fresh_array(run, 'w%d_' % tag, (n, 1), 'float')
+            run.c18.setdefault('calls', []).append({'tag': tag, 'kind': kind, 'arg': a, 'arg_fn': a.fn if isinstance(a, NDArray) else None,
+                                                    'arg_shape': a.shape if isinstance(a, NDArray) else None, 'res': res, 'res_fn': res.fn})
+            return res
+        return Builtin('spy.%s' % kind, fn)
+    return Obj('SpyWarper%d' % tag, {'warp': mk('warp'), 'unwarp': mk('unwarp')})
+
+
+def pipeline_entry(k, meth):
+    def entry(it):
+        inp = fresh_labels(it)
+        ws = [spy_warper(t) for t in range(k)]
+        obj = make(it, 'OutputWarperPipeline', warpers=ws)
+        it.run.c18.update(k=k, obj=obj)
+        return call(it, obj, meth, inp)
+    return entry
+
+
+def pipeline_steps(meth):
+    def steps(sc, p):
+        c = p.run.c18
+        n, f0, k = c['n'], c['f0'], c['k']
+        y = validated(f0)
+        if p.kind == 'raise':
+            return raise_steps(sc, p)
+        out = p.value
+        calls = c.get('calls', [])
+        o = lambda t: out.at(t, 0)
+        sc.step('input_not_modified', isinstance(out, NDArray) and out is not c['inp'] and not_modified(c) and all(cl['arg'] is not c['inp'] for cl in calls), claim=True)
+        sc.step('shape_preserved', shape_is(out, n), claim=True)
+        order = list(range(k)) if meth == 'warp' else list(range(k - 1, -1, -1))
+        if calls:
+            seq = [cl['tag'] for cl in calls] == order and all(cl['kind'] == meth for cl in calls)
+            chain = all(calls[t + 1]['arg'] is calls[t]['res'] and calls[t + 1]['arg_fn'] is calls[t]['res_fn'] for t in range(len(calls) - 1))
+            sc.step('each_warper_applied_once_in_order', bool(seq and chain and out is calls[-1]['res'] and out.fn is calls[-1]['res_fn']), claim=True)
+            a0 = calls[0]
+            first_ok = isinstance(a0['arg'], NDArray) and a0['arg'].rank == 2
+            sc.step('first_warper_receives_validated_copy',
+                    z3.And(shape_is(a0['arg'], n), z3.Implies(rng(n, I_), a0['arg_fn'](I_, z3.IntVal(0)) == y(I_))) if first_ok else False, claim=True)
+            if meth == 'warp':
+                sc.step('constant_labels_take_the_shortcut', z3.Implies(z3.And(n >= 1, QA(n, lambda t: X.is_fin(y(t)))), QE(n, lambda t: y(t) != y(0))), claim=True)
+                sc.step('all_infeasible_takes_the_shortcut', QE(n, lambda t: z3.Not(X.is_nan(y(t)))), claim=True)
+            return
+        # no component was called
+        v = z3.simplify(o(I_))
+        if meth == 'warp':
+            if v.eq(X.fin(z3.RealVal(0))):
+                sc.step('zeros_only_for_constant_finite_labels', z3.Implies(rng(n, I_, J_), z3.And(X.is_fin(y(I_)), y(I_) == y(J_))), claim=True)
+                sc.step('shortcut_output_finite', True, claim=True)
+            elif v.eq(X.fin(z3.RealVal(-1))):
+                sc.step('minus_one_only_when_all_infeasible', z3.Implies(rng(n, I_), X.is_nan(y(I_))), claim=True)
+                sc.step('shortcut_output_finite', True, claim=True)
+            else:
+                sc.step('no_warpers_means_validated_copy', z3.And(k == 0, z3.Implies(rng(n, I_), o(I_) == y(I_))), claim=True)
+        else:
+            if v.eq(X.nan):
+                sc.step('nan_only_for_all_minus_one', z3.Implies(rng(n, I_), y(I_) == X.fin(z3.RealVal(-1))), claim=True)
+            else:
+                sc.step('unchanged_only_for_all_zero_or_no_warpers', z3.Implies(rng(n, I_), z3.And(o(I_) == y(I_), z3.Or(k == 0, y(I_) == X.fin(z3.RealVal(0))))), claim=True)
+    return steps
+
+
+for _k in (0, 1, 3):
+    Spec('OutputWarperPipeline.warp[%d warpers]' % _k, ['OutputWarperPipeline.warp', '_validate_labels'], pipeline_entry(_k, 'warp'), pipeline_steps('warp'),
+         native='pipeline_warp')
+    Spec('OutputWarperPipeline.unwarp[%d warpers]' % _k, ['OutputWarperPipeline.unwarp', '_validate_labels'], pipeline_entry(_k, 'unwarp'), pipeline_steps('unwarp'),
+         native='pipeline_unwarp')
+
+
+# =========================================================================================== ZScoreLabels / NormalizeLabels / DetectOutliers
+def plain(clsname, **attrs):
+    return Obj(mod().classes[clsname], attrs)
+
+
+def zscore_entry(it):
+    inp = fresh_labels(it)
+    return call(it, plain('ZScoreLabels'), 'warp', inp)
+
+
+def all_nan(c):
+    y = validated(c['f0'])
+    return QA(c['n'], lambda t: X.is_nan(y(t)))
+
+
+def monotone_steps(sc, p, strict_when=None, allow_allnan_error=True):
+    """clauses shared by the element-wise normalisers: frame, shape, NaN untouched, order never reversed, ties kept"""
+    c = p.run.c18
+    n, f0 = c['n'], c['f0']
+    y = validated(f0)
+    if p.kind == 'raise':
+        def ok(msg):
+            return all_nan(c) if ('non-NaN' in msg and allow_allnan_error) else None
+        raise_steps(sc, p, allowed_when=ok)
+        return None
+    out = p.value
+    o = lambda t: out.at(t, 0)
+    fin2 = z3.And(rng(n, I_, J_), X.is_fin(y(I_)), X.is_fin(y(J_)))
+    sc.step('input_not_modified', isinstance(out, NDArray) and out is not c['inp'] and not_modified(c), claim=True)
+    sc.step('shape_preserved', shape_is(out, n), claim=True)
+    sc.step('nan_untouched', z3.Implies(z3.And(rng(n, I_), X.is_nan(y(I_))), X.is_nan(o(I_))), claim=True)
+    sc.step('finite_to_finite', z3.Implies(z3.And(rng(n, I_), X.is_fin(y(I_))), X.is_fin(o(I_))), claim=True)
+    sc.step('order_never_reversed', z3.Implies(z3.And(fin2, X.lt(y(I_), y(J_))), X.le(o(I_), o(J_))), claim=True, uses=['finite_to_finite'])
+    sc.step('ties_preserved', z3.Implies(z3.And(fin2, y(I_) == y(J_)), o(I_) == o(J_)), claim=True)
+    return o, y, fin2
+
+
+def zscore_steps(sc, p):
+    r = monotone_steps(sc, p)
+    if r is None:
+        return
+    o, y, fin2 = r
+    sc.step('distinct_values_stay_distinct', z3.Implies(z3.And(fin2, X.lt(y(I_), y(J_))), X.lt(o(I_), o(J_))), claim=True, uses=['finite_to_finite'])
+
+
+Spec('ZScoreLabels.warp', ['ZScoreLabels.warp', '_validate_labels'], zscore_entry, zscore_steps, native='zscore')
+
+
+def normalize_entry(it):
+    run = it.run
+    inp = fresh_labels(it)
+    a, b = run.fresh('ta', z3.RealSort()), run.fresh('tb', z3.RealSort())
+    run.assume(a <= b)                             # __attrs_post_init__ rejects target_interval[0] > target_interval[1]
+    obj = make(it, 'NormalizeLabels', target_interval=(X.fin(a), X.fin(b)))
+    run.c18.update(ta=a, tb=b)
+    return call(it, obj, 'warp', inp)
+
+
+def normalize_steps(sc, p):
+    r = monotone_steps(sc, p)
+    if r is None:
+        return
+    o, y, fin2 = r
+    c = p.run.c18
+    n = c['n']
+    sc.step('within_target_interval', z3.Implies(z3.And(rng(n, I_), X.is_fin(y(I_))), z3.And(X.r(o(I_)) >= c['ta'], X.r(o(I_)) <= c['tb'])), claim=True,
+            uses=['finite_to_finite'])
+    sc.step('distinct_values_stay_distinct_for_nondegenerate_target',
+            z3.Implies(z3.And(fin2, c['ta'] < c['tb'], X.lt(y(I_), y(J_))), X.lt(o(I_), o(J_))), claim=True, uses=['finite_to_finite'])
+
+
+Spec('NormalizeLabels.warp', ['NormalizeLabels.warp', '_validate_labels'], normalize_entry, normalize_steps, native='normalize')
+
+
+def outliers_entry(it):
+    run = it.run
+    inp = fresh_labels(it)
+    mz = run.fresh('min_zscore', z3.RealSort())
+    obj = make(it, 'DetectOutliers', min_zscore=X.fin(mz), max_zscore=None)
+    for a in W.math_axioms():
+        run.axiom(a)
+    return call(it, obj, 'warp', inp)
+
+
+def outliers_steps(sc, p):
+    c = p.run.c18
+    n, f0 = c['n'], c['f0']
+    y = validated(f0)
+    if p.kind == 'raise':
+        def ok(msg):
+            if 'should be finite' in msg or 'zero-size' in msg:
+                return z3.Not(QE(n, lambda t: X.is_fin(y(t))))       # no finite label at all: rejected with a ValueError
+            return None
+        return raise_steps(sc, p, allowed_when=ok)
+    out = p.value
+    o = lambda t: out.at(t, 0)
+    fin2 = z3.And(rng(n, I_, J_), X.is_fin(o(I_)), X.is_fin(o(J_)))
+    sc.step('input_not_modified', isinstance(out, NDArray) and out is not c['inp'] and not_modified(c), claim=True)
+    sc.step('shape_preserved', shape_is(out, n), claim=True)
+    sc.step('each_entry_kept_or_marked_infeasible', z3.Implies(rng(n, I_), z3.Or(o(I_) == y(I_), X.is_nan(o(I_)))), claim=True)
+    sc.step('order_and_ties_of_kept_entries_preserved',
+            z3.Implies(fin2, z3.And(X.lt(y(I_), y(J_)) == X.lt(o(I_), o(J_)), (y(I_) == y(J_)) == (o(I_) == o(J_)))), claim=True,
+            mode='iso', uses=['each_entry_kept_or_marked_infeasible'])
+    sc.step('only_labels_below_kept_ones_are_dropped',
+            z3.Implies(z3.And(rng(n, I_, J_), X.is_fin(y(I_)), X.is_nan(o(I_)), X.is_fin(o(J_))), X.lt(y(I_), y(J_))), claim=True)
+
+
+Spec('DetectOutliers.warp', ['DetectOutliers.warp', 'DetectOutliers._estimate_variance', '_validate_labels'], outliers_entry, outliers_steps, native='outliers')
+
+
+# =========================================================================================== the pipelines as compositions of the component contracts
+def quantified(f):
+    """a clause over the free row indices I_, J_ (A_, B_) as a library fact for the composition"""
+    vs = [v for v in (I_, J_, A_, B_) if _occurs(f, v)]
+    return z3.ForAll(vs, f) if vs else f
+
+
+def _occurs(f, v):
+    seen, todo = set(), [f]
+    while todo:
+        x = todo.pop()
+        if x.get_id() in seen:
+            continue
+        seen.add(x.get_id())
+        if x.eq(v):
+            return True
+        todo.extend(x.children())
+    return False
+
+
+def component_contract(kind):
+    """assume-guarantee: inside a pipeline the component is replaced by the clauses proved for it by its own specification (same formulas,
+    built by the same C_* functions); when a recorded finding is live the clause is assumed in its residual form only"""
+    def fn(it, args, kw):
+        self, a = args[0], args[1]
+        run = it.run
+        if not isinstance(a, NDArray) or a.rank != 2:
+            raise Unsupported('pipeline stage applied to %r' % (a,))
+        n, f = a.shape[0], a.fn
+        haspinf = W.named_bool(it, QE(n, lambda t: X.is_pinf(f(t, 0))), 'haspinf')
+        if it.truth(haspinf):
+            raise PyRaise(it.make_exc('ValueError', ['Infinity metric value is not valid.']))
+        y = validated(f)
+        res = NP.fresh_array(run, kind, (n, 1), 'float')
+        g = res.fn
+        o = lambda t: g(t, 0)
+        nz = zi(n)
+        if kind == 'halfrank':
+            G = QA(n, lambda t: X.is_fin(f(t, 0))) if K_HR_NAN in LIVE else z3.BoolVal(True)
+            C = C_halfrank(y, o, nz, W.named_bool(it, G, 'hr_nan_free'))
+            names = list(C)
+        elif kind == 'log':
+            off = X.lift(self.attrs['offset'])
+            g_off = (X.r(off) != 1) if K_LOG_OFFSET1 in LIVE else z3.BoolVal(True)
+            two = z3.And(rng(nz, A_, B_), X.is_fin(y(A_)), X.is_fin(y(B_)), y(A_) != y(B_))
+            C = C_log(y, o, nz, g_off, z3.And(g_off, two) if K_LOG_CONST in LIVE else z3.BoolVal(True))
+            names = list(C)
+        elif kind == 'infeasible':
+            C = C_infeasible(y, o, nz)
+            names = list(C)
+        else:
+            raise Unsupported('component contract %s' % kind)
+        for nm in names:
+            run.axiom(quantified(C[nm]))
+        run.c18.setdefault('stages', []).append({'kind': kind, 'y': y, 'o': o, 'arg': a, 'res': res})
+        run.assumed.add('pipeline stage %s replaced by the clauses proved for it by its own specification (assume-guarantee)' % kind)
+        return res
+    return fn
+
+
+COMPONENT_MODELS = {
+    OW + ':HalfRankComponent.warp': component_contract('halfrank'),
+    OW + ':LogWarperComponent.warp': component_contract('log'),
+    OW + ':InfeasibleWarperComponent.warp': component_contract('infeasible'),
+}
+
+
+def default_pipeline_entry(it):
+    inp = fresh_labels(it)
+    pipe = it.call(FuncVal(mod(), mod().funcs['create_default_warper']), [], {})
+    it.run.c18['pipe'] = pipe
+    return call(it, pipe, 'warp', inp)
+
+
+def default_pipeline_steps(sc, p):
+    c = p.run.c18
+    n, f0 = c['n'], c['f0']
+    y = validated(f0)
+    nonan = QA(n, lambda t: X.is_fin(f0(t, 0)))
+    if p.kind == 'raise':
+        return raise_steps(sc, p, known=(K_HR_NAN, lambda p_: z3.Not(nonan), ('ValueError',)))
+    out = p.value
+    o = lambda t: out.at(t, 0)
+    st = c.get('stages', [])
+    fin2 = z3.And(rng(n, I_, J_), X.is_fin(y(I_)), X.is_fin(y(J_)))
+    G = sc.hyp(K_HR_NAN, nonan)
+    sc.step('input_not_modified', isinstance(out, NDArray) and out is not c['inp'] and not_modified(c), claim=True)
+    sc.step('shape_preserved', shape_is(out, n), claim=True)
+    if st:
+        sc.step('default_components_in_order', [s_['kind'] for s_ in st] == ['halfrank', 'log', 'infeasible'] and out is st[-1]['res'], claim=True)
+        # stage-wise lemmas (each from one component contract), then the end-to-end clauses
+        h, l = st[0]['o'], st[1]['o'] if len(st) > 1 else None
+        sc.step('stage1_input_is_validated_copy', z3.Implies(rng(n, I_), st[0]['y'](I_) == y(I_)))
+        sc.step('stage1_nan', z3.Implies(z3.And(rng(n, I_), X.is_nan(y(I_))), X.is_nan(h(I_))), uses=['stage1_input_is_validated_copy'])
+        sc.step('stage1_no_inf', z3.Implies(rng(n, I_), z3.Or(X.is_fin(h(I_)), X.is_nan(h(I_)))), uses=['stage1_input_is_validated_copy'])
+        sc.step('stage1_ties', z3.Implies(z3.And(fin2, y(I_) == y(J_)), h(I_) == h(J_)), uses=['stage1_input_is_validated_copy'])
+        sc.step('stage1_order', z3.Implies(z3.And(fin2, G, X.lt(y(I_), y(J_))), z3.And(X.is_fin(h(I_)), X.is_fin(h(J_)), X.lt(h(I_), h(J_)))),
+                uses=['stage1_input_is_validated_copy'], known=K_HR_NAN)
+        if len(st) == 3:
+            sc.step('stage2_input', z3.Implies(rng(n, I_), st[1]['y'](I_) == h(I_)), uses=['stage1_no_inf'])
+            sc.step('stage2_nan', z3.Implies(z3.And(rng(n, I_), X.is_nan(h(I_))), X.is_nan(l(I_))), uses=['stage2_input'])
+            sc.step('stage2_no_inf', z3.Implies(rng(n, I_), z3.Or(X.is_fin(l(I_)), X.is_nan(l(I_)))), uses=['stage2_input'])
+            sc.step('stage2_ties', z3.Implies(z3.And(rng(n, I_, J_), X.is_fin(h(I_)), X.is_fin(h(J_)), h(I_) == h(J_)), l(I_) == l(J_)), uses=['stage2_input'])
+            sc.step('stage2_order', z3.Implies(z3.And(rng(n, I_, J_), X.is_fin(h(I_)), X.is_fin(h(J_)), X.lt(h(I_), h(J_))),
+                                               z3.And(X.is_fin(l(I_)), X.is_fin(l(J_)), X.lt(l(I_), l(J_)))), uses=['stage2_input'])
+            sc.step('stage3_input', z3.Implies(rng(n, I_), st[2]['y'](I_) == l(I_)), uses=['stage2_no_inf'])
+            sc.step('stage3_order', z3.Implies(z3.And(rng(n, I_, J_), X.is_fin(l(I_)), X.is_fin(l(J_))),
+                                               z3.And(X.lt(l(I_), l(J_)) == X.lt(o(I_), o(J_)), (l(I_) == l(J_)) == (o(I_) == o(J_)))), uses=['stage3_input'])
+            sc.step('stage3_nan_below', z3.Implies(z3.And(rng(n, I_, J_), X.is_nan(l(I_))), z3.And(X.le(o(I_), o(J_)), z3.Implies(X.is_nan(l(J_)), o(I_) == o(J_)))),
+                    uses=['stage3_input'])
+            chain = ['stage1_nan', 'stage1_no_inf', 'stage1_ties', 'stage1_order', 'stage2_nan', 'stage2_no_inf', 'stage2_ties', 'stage2_order', 'stage3_order',
+                     'stage3_nan_below']
+            sc.step('all_outputs_finite', z3.Implies(rng(n, I_), X.is_fin(o(I_))), claim=True)
+            sc.step('infeasible_no_higher_than_any_feasible', z3.Implies(z3.And(rng(n, I_, J_), X.is_nan(y(I_)), X.is_fin(y(J_))), X.le(o(I_), o(J_))), claim=True,
+                    mode='iso', uses=chain)
+            sc.step('ties_preserved', z3.Implies(z3.And(fin2, y(I_) == y(J_)), o(I_) == o(J_)), claim=True, mode='iso', uses=chain)
+            sc.step('order_of_feasible_preserved', z3.Implies(z3.And(fin2, G, X.lt(y(I_), y(J_))), X.lt(o(I_), o(J_))), claim=True, mode='iso', uses=chain,
+                    known=K_HR_NAN)
+            sc.step('infeasible_strictly_below_feasible_when_ranking_survives',
+                    z3.Implies(z3.And(rng(n, I_, J_, A_), G, X.is_nan(y(I_)), X.is_fin(y(J_)), X.is_fin(y(A_)), y(A_) != y(J_)), X.lt(o(I_), o(J_))), claim=True,
+                    known=K_HR_NAN)
+        return
+    v = z3.simplify(o(I_))
+    if v.eq(X.fin(z3.RealVal(0))):
+        sc.step('constant_labels_all_zero', z3.Implies(rng(n, I_, J_), z3.And(X.is_fin(y(I_)), y(I_) == y(J_))), claim=True)
+    elif v.eq(X.fin(z3.RealVal(-1))):
+        sc.step('all_infeasible_all_minus_one', z3.Implies(rng(n, I_), X.is_nan(y(I_))), claim=True)
+    else:
+        sc.step('shortcut_value_is_zero_or_minus_one', False, claim=True)
+    sc.step('all_outputs_finite', True, claim=True)
+
+
+def default_pipeline_skip(p):
+    return {K_HR_NAN}
+
+
+Spec('create_default_warper().warp', ['create_default_warper', 'OutputWarperPipeline.warp', '_validate_labels'], default_pipeline_entry, default_pipeline_steps,
+     skip_strong=default_pipeline_skip, models=COMPONENT_MODELS, native='default_pipeline')
+
+
+# =========================================================================================== driver: native side, parallel proof tasks, verdicts
+GENERIC_LIBS = ['numpy.masks_and_copies', 'scalar_math_and_transcendental_axioms']
+SHARDS = {'HalfRankComponent.warp': 4}
+
+
+def _child(conn, spec_index, tier, live, shard):
+    try:
+        os.setpgrp()
+    except OSError:
+        pass
+    try:
+        LIVE.clear()
+        LIVE.update(live)
+        res = run_spec(SPECS[spec_index], tier, live=live, shard=shard)
+        res['assumed'], res['lib'], res['inlined'] = sorted(res['assumed']), sorted(res['lib']), sorted(res['inlined'])
+        conn.send(('ok', res))
+    except BaseException:  # noqa: BLE001
+        conn.send(('error', traceback.format_exc()))
+    finally:
+        conn.close()
+
+
+def run_tasks(chk, tier, specs, live, budget_s):
+    import multiprocessing
+    import signal
+    ctx = multiprocessing.get_context('fork')
+    tasks = []
+    for sp in specs:
+        k = SHARDS.get(sp.name, 1)
+        for w in range(k):
+            tasks.append((sp, (w, k)))
+    maxpar = int(os.environ.get('VERIF_C18_PROCS', '10'))
+    pending, running, done = list(tasks), [], {}
+    t_end = time.time() + budget_s
+    while pending or running:
+        while pending and len(running) < maxpar:
+            sp, shard = pending.pop(0)
+            a, b = ctx.Pipe(duplex=False)
+            pr = ctx.Process(target=_child, args=(b, SPECS.index(sp), tier, set(live), shard))
+            pr.start()
+            b.close()
+            running.append((sp, shard, pr, a))
+        still = []
+        for sp, shard, pr, a in running:
+            msg = None
+            try:
+                if a.poll(0.05):
+                    msg = a.recv()
+            except EOFError:
+                msg = ('error', 'the proof task died')
+            if msg is None and time.time() > t_end:
+                try:
+                    os.killpg(pr.pid, signal.SIGKILL)
+                except OSError:
+                    pr.terminate()
+                msg = ('error', 'the proof task did not finish within the budget (%ds)' % budget_s)
+            if msg is None:
+                still.append((sp, shard, pr, a))
+                continue
+            pr.join(5)
+            done.setdefault(sp.name, []).append(msg)
+        running = still
+    return done
+
+
+def native_jobs(pool, tier):
+    pool.start('witness', 'c18_replay.py', ['witness'])
+    pool.start('conformance', 'c18_conformance.py', ['300' if tier == 'quick' else '3000'])
+
+
+def finding_entries(chk):
+    out = {}
+    for f in chk.findings:
+        if f.get('key'):
+            out[f['key']] = f
+    return out
+
+
+def record_spec(chk, spec, msgs, findings, conf, falsify_jobs):
+    """aggregate the plain-data results of one specification into obligations; unproved untagged clauses are queued for native falsification"""
+    pre = 'C18.%s.' % spec.name
+    errs = [m[1] for m in msgs if m[0] != 'ok']
+    if errs:
+        chk.error(pre + 'task', 'checker failure (not a violation): %s' % errs[0][-1500:])
+        return
+    ress = [m[1] for m in msgs]
+    inst = [r for res in ress for r in res['inst']]
+    unsupported = sorted({u for res in ress for u in res['unsupported']})
+    for a in sorted({a for res in ress for a in res['assumed']}):
+        chk.assume(a)
+    if unsupported:
+        chk.obligation(pre + 'supported', spec.name, 'checker', report.ERROR, 0.0,
+                       detail='the real code left the supported subset: %s' % '; '.join(unsupported)[:1500])
+    live_paths = [k for k, d in ress[0]['paths'] if k in ('return', 'raise')]
+    if not live_paths and not unsupported:
+        chk.obligation(pre + 'vacuity', spec.name, 'checker', report.ERROR, 0.0, detail='no terminating path explored')
+    libs = sorted({l for res in ress for l in res['lib']} | set(GENERIC_LIBS))
+    bad_libs = [l for l in libs if not (conf.get(l) or {}).get('ok')]
+    groups = {}
+    for r in inst:
+        groups.setdefault((r['kind'], r['name']), []).append(r)
+    nclaims = 0
+    for (kind, name), recs in groups.items():
+        tsum = sum(r['dt'] for r in recs)
+        strong = [r for r in recs if r['strong']]
+        weak = {r['pi']: r for r in recs if not r['strong']}
+        detail = {'instances': len(recs), 'paths': len({r['pi'] for r in recs})}
+        if kind == 'engine':
+            oname = pre + 'engine.' + name
+            bad = [r for r in recs if r['verdict'] != 'unsat']
+            if bad:
+                detail['reason'] = 'solver budget exhausted (unknown) on path(s) %s' % sorted({r['pi'] for r in bad})[:8]
+                chk.obligation(oname, spec.name, 'z3', report.UNDECIDED, tsum, detail=detail)
+            else:
+                chk.obligation(oname, spec.name, 'z3', report.PROVED, tsum, detail=detail)
+            continue
+        if kind == 'lemma':
+            ok = all((r['verdict'] == 'unsat') or (weak.get(r['pi'], {}).get('verdict') == 'unsat') for r in strong) and \
+                all(w['verdict'] == 'unsat' for pi, w in weak.items() if not any(r['pi'] == pi for r in strong))
+            only_weak = any(r['verdict'] != 'unsat' for r in strong) or any(not any(r['pi'] == pi for r in strong) for pi in weak)
+            if ok:
+                detail['role'] = 'lemma (cut): proved on its path, then used as a hypothesis by later steps of the same path'
+                if only_weak:
+                    detail['form'] = 'residual form: proved under the hypothesis "outside the witness class of the recorded finding(s) %s"' % \
+                        sorted({k for r in recs for k in r['known']})
+                chk.obligation(pre + 'lemma.' + name + ('.residual' if only_weak else ''), spec.name, 'z3', report.PROVED, tsum, detail=detail)
+            else:
+                chk.note('proof step %slemma.%s was not discharged on every path (the clauses that need it are reported on their own).' % (pre, name))
+            continue
+        # ---- a property clause
+        nclaims += 1
+        oname = pre + name
+        failing = [r for r in strong if r['verdict'] != 'unsat']
+        if not failing:
+            if bad_libs:
+                falsify_jobs.append({'oname': oname, 'spec': spec, 'clause': name, 'tsum': tsum, 'detail': detail, 'bad_libs': bad_libs,
+                                     'cases': [conf[l].get('counterexample') for l in bad_libs if (conf.get(l) or {}).get('counterexample')]})
+            else:
+                chk.obligation(oname, spec.name, 'z3' if not all(r['dt'] == 0.0 for r in recs) else 'paths', report.PROVED, tsum, detail=detail)
+            continue
+        tags = {k for r in failing for k in r['known']}
+        live_tags = sorted(k for k in tags if k in LIVE and k in findings)
+        resid_ok = all(weak.get(r['pi'], {}).get('verdict') == 'unsat' for r in failing)
+        if live_tags and resid_ok and not bad_libs:
+            what = '; '.join('%s [%s]' % (findings[k]['what'], k) for k in live_tags)
+            detail['finding_keys'] = live_tags
+            chk.obligation(oname, spec.name, 'z3+native-witness', report.KNOWN, tsum, detail=detail, finding=what)
+            chk.obligation(oname + '.residual', spec.name, 'z3', report.PROVED, sum(w['dt'] for w in weak.values()),
+                           detail={'clause': 'the same clause for every input outside the witness class(es) of %s' % live_tags, 'instances': len(failing)})
+            continue
+        detail['verdicts'] = sorted({r['verdict'] for r in failing})
+        detail['definitely_false_on_a_path'] = any(r['verdict'] == 'false' for r in failing)
+        falsify_jobs.append({'oname': oname, 'spec': spec, 'clause': name, 'tsum': tsum, 'detail': detail, 'bad_libs': bad_libs, 'cases': []})
+    if nclaims < spec.min_claims and not unsupported:
+        chk.obligation(pre + 'vacuity', spec.name, 'checker', report.ERROR, 0.0, detail='only %d property clauses generated' % nclaims)
+
+
+def settle_falsification(chk, jobs):
+    """clauses that were not proved (or rest on a library contract the installed library violates): a failing input reproduced on the real code
+    is a violation; nothing found = undecided"""
+    if not jobs:
+        return
+    payload = [{'runner': j['spec'].native, 'clause': j['clause'], 'cases': [c for c in j['cases'] if c]} for j in jobs]
+    out, raw = ckit.run_replay('c18_replay.py', ['falsify'], payload=payload, timeout=600)
+    results = (out or {}).get('results') or [None] * len(jobs)
+    for j, r in zip(jobs, results):
+        d = dict(j['detail'])
+        if j['bad_libs']:
+            d['false_library_assumption'] = 'the installed library violates the assumed contract(s) %s (replay/c18_conformance.py)' % j['bad_libs']
+        if r and r.get('found'):
+            rep = {'runner': r.get('runner'), 'clause': r.get('clause'), 'labels': r.get('input'), 'params': r.get('params'), 'observed': r.get('observed'),
+                   'how_to_replay': 'echo \'{"runner": "%s", "clause": "%s", "cases": [%s], "limit": 0}\' | /venv/bin/python /verif/replay/c18_replay.py falsify'
+                                    % (r.get('runner'), r.get('clause'), json.dumps(r.get('input')))}
+            d['refuted_by'] = 'failing input found on the real code (native replay of the clause predicate)'
+            chk.obligation(j['oname'], j['spec'].name, 'z3+native-replay', report.VIOLATED, j['tsum'], detail=d,
+                           model='labels=%s params=%s observed=%s' % (r.get('input'), r.get('params'), r.get('observed')), replay=rep, reproduced=True)
+        elif d.get('definitely_false_on_a_path'):
+            chk.obligation(j['oname'], j['spec'].name, 'paths', report.VIOLATED, j['tsum'], detail=d,
+                           model='the clause is decidably false on a feasible path of the real AST (frame / call-sequence clause)', replay=None, reproduced=None)
+        else:
+            d['reason'] = 'not proved (solver unknown) and no failing input found natively: %s' % (r if r is not None else raw[-300:])
+            chk.obligation(j['oname'], j['spec'].name, 'z3', report.UNDECIDED, j['tsum'], detail=d)
+
+
+def main(tier):
+    chk = report.Check('C18', tier, level='proof',
+                       technique='contract-based deductive verification of the real output_warpers.py: VCs from the real AST (pyvc symbolic execution; numpy/scipy '
+                                 'as assumed contracts over symbolic-size arrays; loop invariants; per-path proof scripts of lemmas over two arbitrary row '
+                                 'indices), z3; pipelines by assume-guarantee composition of the component contracts; native conformance tests of every '
+                                 'library contract; native replay for refutation')
+    for t in ('pyvc VC generator and its Python models (DESIGN 2, 4)', 'z3 5.1.0',
+              'numpy fragment of pyvc/np_model.py + float-array fragment of pyvc/warp_model.py (each library contract conformance-tested natively)') + tuple(AM.TRUST[:1]):
+        chk.trust(t)
+    chk.assume(ARITH)
+    for a in W.MATH_AXIOMS:
+        chk.assume('transcendental functions are uninterpreted real functions with: ' + a)
+    chk.assume('label arrays have shape (n, 1), n >= 1, dtype float (any mix of finite values, NaN, -inf, +inf); rank-1 inputs are shown to be rejected')
+    chk.assume('iterating zip(array, ranks) reads a snapshot of the array (the loop of HalfRankComponent.warp writes element i only after reading it)')
+    quals = []
+    for sp in SPECS:
+        for q in sp.quals:
+            if q not in quals:
+                quals.append(q)
+    for q in quals:
+        chk.function(OW, q)
+    specs = [sp for sp in SPECS if not ONLY or any(o in sp.name for o in ONLY)]
+    pool = ckit.ReplayPool()
+    native_jobs(pool, tier)
+    findings = finding_entries(chk)
+    wout, wraw = pool.get('witness', timeout=300)
+    wit = (wout or {}).get('witness') or {}
+    if wout is None:
+        chk.error('C18.native.witness', 'the witness programs of the recorded findings could not be run: %s' % wraw[-800:])
+    LIVE.clear()
+    for k, f in findings.items():
+        if f.get('status', 'open') != 'open':
+            continue
+        if (wit.get(k) or {}).get('reproduced'):
+            LIVE.add(k)
+            chk.note('finding %s re-confirmed on the real code.' % k)
+        elif wout is not None:
+            print('NOTE: property=C18 the recorded finding %s no longer reproduces on the current code (stale entry in known_findings.d/C18.json); '
+                  'its clauses are checked in full' % k)
+            chk.note('finding %s is stale (its witness no longer fails).' % k)
+    done = run_tasks(chk, tier, specs, LIVE, budget_s=240 if tier == 'quick' else 1500)
+    cout, craw = pool.get('conformance', timeout=600)
+    conf = (cout or {}).get('contracts') or {}
+    if cout is None:
+        chk.error('C18.native.conformance', 'the library conformance tests could not be run: %s' % craw[-800:])
+    else:
+        chk.extra['library_conformance'] = {'numpy': cout.get('numpy'), 'scipy': cout.get('scipy'), 'contracts': conf}
+        for k, v in conf.items():
+            if not v.get('ok'):
+                print('NOTE: property=C18 the installed library violates the assumed contract %s (counterexample %s): obligations resting on it are not '
+                      'counted as proved' % (k, v.get('counterexample')))
+    jobs = []
+    for sp in specs:
+        record_spec(chk, sp, done.get(sp.name, [('error', 'no result')]), findings, conf, jobs)
+    settle_falsification(chk, jobs)
+    chk.extra['findings_live'] = sorted(LIVE)
+    chk.extra['library_contracts'] = dict(W.CONTRACTS)
+    return chk.finish(min_obligations=60 if not ONLY else 1)
